@@ -498,6 +498,7 @@ func (w *Worker) mutexLock(fr *frame, p *value) {
 	if p == nil {
 		w.nilDeref()
 	}
+	fr.g.waitFn = repoFn(fr)
 	w.sched.point(fr.g, "lock")
 	m := w.mutex(p)
 	key := fmt.Sprintf("mutex %p", p)
@@ -756,6 +757,7 @@ func init() {
 	}
 	S["(*sync.WaitGroup).Wait"] = func(w *Worker, fr *frame, fn *ssa.Function, args []value) value {
 		p := ptrArg(args[0])
+		fr.g.waitFn = repoFn(fr)
 		w.sched.point(fr.g, "wg-wait")
 		s := wg(w, p)
 		key := fmt.Sprintf("waitgroup %p", p)
@@ -779,6 +781,7 @@ func init() {
 	S["(*sync.Cond).Wait"] = func(w *Worker, fr *frame, fn *ssa.Function, args []value) value {
 		p := ptrArg(args[0])
 		s := cs(w, p)
+		fr.g.waitFn = repoFn(fr)
 		cw := &condWaiter{g: fr.g}
 		s.waiters = append(s.waiters, cw)
 		w.callMethod(fr, condL(p), "Unlock")
